@@ -39,8 +39,9 @@ inductive CEff where
 /-- primitive file-system operations of a file-manager function -/
 inductive FsOp where
   | retDirExists | retAllExist (fs : List String)
-  | mkdir | rmtree | returnIfNoDir
+  | mkdir | mkdirExistOk | rmtree | returnIfNoDir
   | readFile (f : String) | openTrunc (f : String) | write (f : String) | unlink (f : String)
+  | openTmp (f : String) | writeTmp (f : String) | replace (f : String)    -- `<f>.tmp` written, then renamed over `<f>`
   | unknown (s : String)
   deriving DecidableEq, Repr
 
@@ -168,6 +169,25 @@ def runFsWrite (ops : List FsOp) (m : M) (wcfg : Cfg) (wmeta : Nat) (wedb : Edb)
       match tick m with
       | none => (m, .crashed)
       | some m' => runFsWrite rest { m' with disk := { m'.disk with dir := true } } wcfg wmeta wedb
+    | .mkdirExistOk =>
+      if m.disk.dir then runFsWrite rest m wcfg wmeta wedb else
+      match tick m with
+      | none => (m, .crashed)
+      | some m' => runFsWrite rest { m' with disk := { m'.disk with dir := true } } wcfg wmeta wedb
+    | .openTmp _ | .writeTmp _ =>
+      -- the temporary file is never read: creating / filling it changes nothing a loader can see
+      match tick m with
+      | none => (m, .crashed)
+      | some m' => if !m'.disk.dir then (m', .raised) else runFsWrite rest m' wcfg wmeta wedb
+    | .replace f =>
+      match tick m with
+      | none => (m, .crashed)
+      | some m' =>
+        match fileIdOf f with
+        | some .config => runFsWrite rest { m' with disk := { m'.disk with config := .full wcfg } } wcfg wmeta wedb
+        | some .metaF => runFsWrite rest { m' with disk := { m'.disk with metaSt := .full wmeta } } wcfg wmeta wedb
+        | some .edb => runFsWrite rest { m' with disk := { m'.disk with edb := .full wedb } } wcfg wmeta wedb
+        | none => ({ m' with outs := .unknownStatement f :: m'.outs }, .raised)
     | .openTrunc f =>
       match tick m with
       | none => (m, .crashed)
@@ -282,6 +302,20 @@ def runCLeafs : List CLeaf → Disk → Conn → Option Conn
     | .initMeta n => runCLeafs rest d { c with state := n }
     | .unknown _ => none
 
+def fileExists (d : Disk) (f : String) : Bool :=
+  match fileIdOf f with
+  | some .config => d.config != .absent
+  | some .metaF => d.metaSt != .absent
+  | some .edb => d.edb != .absent
+  | none => false
+
+/-- `FileManager.check_sid_folder_exist(sid)` -/
+def serviceExists (p : Program) (d : Disk) : Bool :=
+  match p.fmCheckDir with
+  | [.retDirExists] => d.dir
+  | [.retAllExist fs] => d.dir && fs.all (fileExists d)
+  | _ => false
+
 /-- `Service(sid, websocket)`: `none` = the constructor raised (the connection dies before any echo) -/
 def construct (p : Program) (d : Disk) : Option (Conn × List Out) :=
   let rec go : List CEff → Conn → List Out → Option (Conn × List Out)
@@ -289,7 +323,7 @@ def construct (p : Program) (d : Disk) : Option (Conn × List Out) :=
     | e :: rest, c, o =>
       match e with
       | .ifDirExists t el =>
-        match runCLeafs (if d.dir then t else el) d c with
+        match runCLeafs (if serviceExists p d then t else el) d c with
         | some c' => go rest c' o
         | none => none
       | .buildDispatch => go rest c o
@@ -404,5 +438,45 @@ def stepEv (p : Program) (s : SrvD) (ev : Ev) : SrvD × List Out :=
 def runEvs (p : Program) (s : SrvD) : List Ev → SrvD × List Out
   | [] => (s, [])
   | e :: es => let (s1, o) := stepEv p s e; let (s2, os) := runEvs p s1 es; (s2, o ++ os)
+
+/-! ### the three-state reference machine (not-configured → configured → ready) -/
+
+structure Spec3 where
+  st : Nat := 0
+  cfg : Option Cfg := none
+  edb : Option Edb := none
+  alive : Bool := false
+  deriving DecidableEq, Repr
+
+def Spec3.die (t : Spec3) : Spec3 := { t with alive := false }
+
+def spec3Msg (t : Spec3) : Msg → Spec3 × List Out
+  | .foreignSid | .noType | .noSid => (t, [])
+  | .unknownType => (t.die, [.closed])
+  | .config c =>
+    if t.st ≠ 0 then (t.die, [.refused "config", .closed]) else
+    match c with
+    | none => (t.die, [.closed])
+    | some v => ({ t with st := 1, cfg := some v }, [.ok "config"])
+  | .upload e =>
+    if t.st ≠ 1 then (t.die, [.refused "upload_edb", .closed])
+    else ({ t with st := 2, edb := some e }, [.ok "upload_edb"])
+  | .search tk =>
+    if t.st ≠ 2 then (t.die, [.refused "result", .closed]) else
+    match tk, t.cfg, t.edb with
+    | some k, some c, some e => (t, [.result c e k])
+    | _, _, _ => (t.die, [.closed])
+
+def spec3Step (t : Spec3) : Ev → Spec3 × List Out
+  | .reconnect | .reconnectFast => ({ t with alive := true }, [.initEcho t.st])
+  | .msg m =>
+    let (t1, o1) := if t.alive then (t, []) else ({ t with alive := true }, [Out.initEcho t.st])
+    let (t2, o2) := spec3Msg t1 m
+    (t2, o1 ++ o2)
+
+def spec3Run (t : Spec3) : List Ev → Spec3 × List Out
+  | [] => (t, [])
+  | e :: es => let (t1, o) := spec3Step t e; let (t2, os) := spec3Run t1 es; (t2, o ++ os)
+
 
 end SSEPy.ServerIR
